@@ -88,7 +88,7 @@ CLAIMED.update({
               "models (masked values and padded ages overwritten, extra padded visits, 25 % missing entries incl. partially "
               "observed visits) must give equal attachment terms, sufficient statistics, counts, initial and fitted parameters "
               "(memory phase included), trajectories at real visits and personalizations, and a noise level equal to the RMSE "
-              "over observed entries."),
+              "over observed entries; the Bernoulli (binary) model is part of both tiers."),
         note=("Bit-identical when padding is unchanged; relative 1e-5 (personalization 1e-2 absolute) when the amount of padding "
               "differs. Scenario space sampled (fills x padding x kinds); algebra exhaustive for 2 entries."),
         technique="TLA+ algebra + TLC exhaustive; code->spec conformance of vector operations; twin-dataset scenario replay",
@@ -222,9 +222,10 @@ CLAIMED.update({
         text=("TLC checks TempStart, TempFloor, TempMonotone, TempOnlyAtBoundaries, TempOneAfterAnnealing, NoAnnealingIsOne, "
               "AcceptedCompletes and Termination of specs/Saem.tla with the temperature as an exact rational over every "
               "annealing configuration with n_iter <= 12, <= 6 plateaus and five initial temperatures; sampled configurations "
-              "are run as real fits and the temperature after every iteration (and the refusal / completion of the "
+              "are run as real fits (a quarter of them as two consecutive runs of one algorithm object) and the temperature after every iteration (and the refusal / completion of the "
               "configuration) is validated by TLC against SaemTrace.tla; proposal scales: Sampler.tla StdEnvelope and the "
-              "recorded adaptation of real samplers."),
+              "recorded adaptation of real samplers judged with the CONFIGURED (non-default, different per sampler family) window "
+              "length, target band and factor."),
         note=("Float temperature compared with the exact rational within 8*P ulps and literally 1.0 where the specification "
               "says 1. A single plateau is the documented degenerate scheme."),
         technique="TLA+ spec + TLC exhaustive; code->spec trace validation of real fits",
@@ -253,34 +254,41 @@ CLAIMED.update({
               "for every number of iterations <= 5, every burn-in length, 2 individuals and 3 abstract loss levels; real "
               "mean_posterior / mode_posterior runs (model kinds x n_iter 2-6 x burn-in fractions incl. 0 and 1 x annealing x cohorts "
               "with missing data, a one-visit subject, identifiers in non-sorted order) are recorded - the chain after every "
-              "iteration, the samples handed to the estimator, attachment + regularity per draw - and TLC checks "
+              "iteration with its own attachment + regularity, the samples handed to the estimator - and TLC checks "
               "(PersonalizeTrace.tla) that exactly the iterations after burn-in are kept, the mode is the first kept draw of lowest "
-              "loss per individual, the mean is bit-equal to the mean of the kept draws, outputs are keyed by the input identifiers "
-              "in input order, finite and shaped as the model expects; scipy_minimize runs are recorded through the optimiser call: "
-              "the objective at the returned point is not worse than at the starting point."),
+              "loss (read from the chain) per individual, the mean is bit-equal to the mean of the kept draws, outputs are keyed by "
+              "the input identifiers in input order, finite and shaped as the model expects; scipy_minimize runs (default budget and "
+              "a one-iteration budget ending on a convergence issue) are recorded through the optimiser call and the harness evaluates "
+              "the objective of every individual at the RETURNED parameters on its own data: not worse than at the starting point "
+              "of its optimisation and equal to the value its optimisation reached."),
         note=("Sampled settings (stratified); the chain is matched to the kept samples by bit-equality. Known finding: the mixture "
               "model cannot be personalized. One defect fixed (burn-in covering all iterations)."),
         technique="TLA+ spec + TLC exhaustive; code->spec conformance of recorded personalizations",
-        design_ref="4/C17"),
+        design_ref="4/C17, 9"),
     "C18": dict(
         engine="SimDesign", category="model_checking",
-        text=("TLC enumerates every design with at most 2 (3 thorough) attributes off the valid base over 12 attribute classes of "
-              "specs/SimDesign.tla and checks Honoured (valid => completes, invalid => refused) on the intended design; every "
-              "enumerated design is made concrete and run on a real fitted model under a 10 s watchdog; TLC compares the outcome "
-              "class (completes / refused / crash class / timeout) with the as-built Outcome (nine named deviations) and checks the "
-              "post-conditions of completed runs: exact individuals, unique increasing ages rounded to the precision implied by the "
-              "spacing, finite values in [0,1] for every feature, one parameter set per individual (SimDesignTrace.tla)."),
-        note=("Nine known findings (validation gaps) are named deviations of the specification; any other deviation is reported. "
-              "Non-termination is judged by a 10 s watchdog (valid small designs take < 1 s)."),
+        text=("TLC enumerates every design with at most 2 (3 thorough) attributes off the valid base over 14 attribute classes of "
+              "specs/SimDesign.tla (visit type, patient number kinds incl. a single individual, standard deviations, mean / std of "
+              "the interval incl. a std comparable to the mean, minimal spacing, follow-up zero / decades long, feature list kinds, "
+              "missing parameter, table columns / null ages / identifier typing / rows out of order with a repeated age / late ages, "
+              "model with / without sources) and checks Honoured (valid => completes, invalid => refused); every enumerated design is "
+              "made concrete and run on a real fitted model under a 10 s watchdog; TLC compares the outcome class (completes / "
+              "refused / crash class / timeout) with Outcome and checks the post-conditions of completed runs: exact individuals, "
+              "unique increasing ages rounded to the precision implied by the spacing, finite values in [0,1] for every feature, one "
+              "parameter set per individual (SimDesignTrace.tla)."),
+        note=("The ten deviations found on the tree as given (D2-D11) were repaired by 'fix:' commits; the specification keeps the "
+              "named-deviation mechanism (constant Deviations, empty). Non-termination is judged by a 10 s watchdog (valid small "
+              "designs take < 1 s)."),
         technique="TLA+ case table + TLC exhaustive; spec-enumerated designs run on the code; code->spec conformance",
-        design_ref="4/C18"),
+        design_ref="4/C18, 9"),
     "C20": dict(
         engine="Benchmarks", category="model_checking",
         text=("TLC evaluates the four estimators of the constant model exactly on every history of 1-3 visits (all age orders, values "
               "in {1,2,3,NaN}) and the conditional means of the LME random effects exactly (closed 1x1 / 2x2 inverse) on integer "
-              "cases (specs/Benchmarks.tla: LastKnownExtendsLast, MeanBetween, Shrinks); every enumerated case is run through "
-              "ConstantModel.personalize / estimate and, with parameters injected through load_parameters, through "
-              "LMEModel.personalize / estimate; TLC compares the results, as numerators over the specification's denominators, with "
+              "cases (specs/Benchmarks.tla: LastKnownExtendsLast, MeanBetween, Shrinks); every enumerated case (x the previous use of the same model "
+              "object: fresh / another data set with swapped columns or other feature names / trajectories of other individuals) is run "
+              "through ConstantModel.personalize / estimate and, with parameters injected through load_parameters, through "
+              "LMEModel.personalize / estimate, and asked twice; TLC compares the results, as numerators over the specification's denominators, with "
               "the specification (BenchmarksTrace.tla); fitted univariate cohorts with and without random slope are compared with "
               "the reference mixed-model library's random effects on the training individuals."),
         note=("Exact on the enumerated cases (float64 results compared with rationals within 1e-9 relative); agreement with the "
